@@ -67,6 +67,10 @@ def gen_cases(rng, tier):
     cases += [{"expr": "x", "var": "x", "deg": 1, "powers": [1]}, {"expr": "-x", "var": "x", "deg": 1, "powers": [1]},
               {"expr": "-a", "var": "x", "deg": 0, "powers": [0]}, {"expr": "0.25*a", "var": "x", "deg": 0, "powers": [0]},
               {"expr": "x*a", "var": "x", "deg": 1, "powers": [1]}, {"expr": "1.5*x + 0.5", "var": "x", "deg": 1, "powers": [0, 1]}]
+    # coefficients that DIVIDE by other symbols (or carry a negative power of one): constants in x all the same
+    cases += [{"expr": "x + x**2/a", "var": "x", "deg": 2, "powers": [1, 2]}, {"expr": "a*x + 7 + 3*x**4/(a*b)", "var": "x", "deg": 4, "powers": [0, 1, 4]},
+              {"expr": "x**3 + x/a", "var": "x", "deg": 3, "powers": [1, 3]}, {"expr": "(x**2 + x)/(a + b)", "var": "x", "deg": 2, "powers": [1, 2]},
+              {"expr": "b/a", "var": "x", "deg": 0, "powers": [0]}, {"expr": "x**2*a**(-2) + x/b", "var": "x", "deg": 2, "powers": [1, 2]}]
     for c in ("5", "a", "a*b + 2", "7/2"):              # constants in x
         cases.append({"expr": c, "var": "x", "deg": 0, "powers": [0]})
     return cases
